@@ -553,10 +553,109 @@ def bool_blocks(body):
     return body_
 
 
+def _first_or_leave(body):
+    """NF18  let h = match s.first() { Some(&b) => b, None => LEAVE };      ->      if s.len() == 0 { LEAVE }  let h = s[0];
+    (LEAVE diverges: return / break / continue / panic; the arms in either order)"""
+    for blk in list(_walk_dicts(body)):
+        if blk.get("k") != "Block" or not isinstance(blk.get("stmts"), list):
+            continue
+        st = blk["stmts"]
+        i = 0
+        while i < len(st):
+            s_ = st[i]
+            i += 1
+            if s_.get("k") != "LetStmt" or s_.get("els") is not None or not isinstance(s_.get("init"), dict):
+                continue
+            m = _peel_block(s_["init"])
+            if m.get("k") != "Match" or m.get("src", "match") != "match" or len(m.get("arms") or ()) != 2:
+                continue
+            sc = _peel_block(m["scrut"])
+            if not (sc.get("k") == "MethodCall" and sc.get("name") == "first" and not sc.get("args") and (sc.get("callee") or "").startswith("core::slice::")):
+                continue
+            some = none = None
+            for a in m["arms"]:
+                p_ = a.get("pat") or {}
+                if a.get("guard") is not None:
+                    some = none = None
+                    break
+                if p_.get("k") == "TupleStruct" and (p_.get("path") or {}).get("path", "").endswith("Option::Some") and len(p_.get("pats") or ()) == 1:
+                    some = a
+                elif p_.get("k") == "ExprPat" and ((p_.get("e") or {}).get("path") or "").endswith("Option::None"):
+                    none = a
+                elif p_.get("k") == "Wild":
+                    none = a
+            if some is None or none is None or (none["body"].get("ty") != "!"):
+                continue
+            sub = some["pat"]["pats"][0]
+            deref = False
+            if sub.get("k") == "RefPat" and isinstance(sub.get("sub"), dict):
+                sub, deref = sub["sub"], True
+            v = _peel_block(some["body"])
+            if not (deref and sub.get("k") == "Bind" and v.get("k") == "Local" and v.get("lid") == sub.get("lid")):
+                continue
+            recv = sc["recv"]
+            sp = m.get("sp") or [0, 0, 0, 0]
+            ln = {"k": "MethodCall", "name": "len", "callee": (sc.get("callee") or "")[:-len("first")] + "len", "recv": recv, "recv_ty": sc.get("recv_ty"),
+                  "args": [], "id": sc.get("id"), "ty": "usize", "sp": sc.get("sp")}
+            cond = {"k": "Binary", "op": "==", "l": ln, "r": _lit(0, {"id": sc.get("id"), "ty": "usize", "sp": sc.get("sp")}, "NF18"),
+                    "id": m.get("id"), "ty": "bool", "sp": sc.get("sp"), "nf": "NF18"}
+            leave = none["body"] if none["body"].get("k") == "Block" else {"k": "Block", "stmts": [], "expr": none["body"], "ty": "!", "sp": none["body"].get("sp")}
+            guard = {"k": "ExprStmt", "semi": False, "e": {"k": "If", "cond": cond, "then": leave, "ty": "()", "id": m.get("id"), "sp": [sp[0], (none["body"].get("sp") or sp)[1]] + list(sp[2:]), "nf": "NF18"}}
+            import copy
+            idx = {"k": "Index", "e": copy.deepcopy(recv), "idx": _lit(0, {"id": sc.get("id"), "ty": "usize", "sp": sc.get("sp")}, "NF18"), "base_ty": sc.get("recv_ty"),
+                   "id": sc.get("id"), "ty": m.get("ty"), "sp": [(none["body"].get("sp") or sp)[1], sp[1]] + list(sp[2:]), "nf": "NF18"}
+            st[i - 1] = dict(s_, init=idx, nf="NF18")
+            st.insert(i - 1, guard)
+            i += 1
+
+
+def _sum_assign(body):
+    """NF17  let y = x + e; ...; x = y      ->      let y = x + e; ...; x += e
+    (y an immutable let in the same block, x a local not written between the let and the assignment): the running
+    counter advanced by `+= e` and the one set to the already computed sum are the same update."""
+    import copy
+    for blk in list(_walk_dicts(body)):
+        if blk.get("k") != "Block" or not isinstance(blk.get("stmts"), list):
+            continue
+        st = blk["stmts"]
+        lets = {}
+        for i, s_ in enumerate(st):
+            if s_.get("k") == "LetStmt" and s_.get("els") is None and s_.get("pat", {}).get("k") == "Bind" and not s_["pat"].get("mut") and isinstance(s_.get("init"), dict):
+                e = _peel_block(s_["init"])
+                if e.get("k") == "Binary" and e.get("op") == "+":
+                    l, r = _peel_block(e["l"]), _peel_block(e["r"])
+                    if l.get("k") == "Local":
+                        lets[s_["pat"]["lid"]] = (i, l["lid"], e["r"])
+                    elif r.get("k") == "Local":
+                        lets[s_["pat"]["lid"]] = (i, r["lid"], e["l"])
+            if s_.get("k") != "ExprStmt" or not isinstance(s_.get("e"), dict):
+                continue
+            a = s_["e"]
+            if a.get("k") != "Assign":
+                continue
+            l, r = _peel_block(a["l"]), _peel_block(a["r"])
+            if l.get("k") != "Local" or r.get("k") != "Local" or r["lid"] not in lets:
+                continue
+            j, x, e = lets[r["lid"]]
+            if x != l["lid"]:
+                continue
+            # x untouched between the let and here; e only reads (no calls)
+            between = st[j + 1:i]
+            written = any(y.get("k") in ("Assign", "AssignOp") and isinstance(y.get("l"), dict) and _peel_block(y["l"]).get("k") == "Local" and
+                          _peel_block(y["l"]).get("lid") == x for y in _walk_dicts(between))
+            borrowed = any(y.get("k") == "AddrOf" and y.get("mut") and _peel_block(y.get("e") or {}).get("lid") == x for y in _walk_dicts(between))
+            impure = any(y.get("k") in ("Call", "MethodCall", "Assign", "AssignOp") for y in _walk_dicts(e))
+            if written or borrowed or impure:
+                continue
+            s_["e"] = {"k": "AssignOp", "op": "+=", "l": a["l"], "r": copy.deepcopy(e), "id": a.get("id"), "ty": a.get("ty"), "sp": a.get("sp"), "nf": "NF17"}
+
+
 def normalize(bodies, consts):
     nz = Normalizer(consts)
     for b in bodies:
         nz.body(b)
         if b.get("body") is not None:
+            _first_or_leave(b["body"])
             _deferred_init(b["body"])
+            _sum_assign(b["body"])
             _flag_from_match(b["body"])
